@@ -517,6 +517,11 @@ def binop(I, run, op, a: Value, b: Value, node) -> Value:
             I.raise_builtin(run, "ZeroDivisionError", node)
         except (TypeError, ValueError) as e:
             I.raise_builtin(run, type(e).__name__, node, C(str(e)))
+    if name == "%" and isinstance(a, C) and isinstance(a.v, (str, bytes)) and isinstance(b, Tup) and all(isinstance(x, C) for x in b.items):
+        try:
+            return C(a.v % tuple(x.v for x in b.items))
+        except (TypeError, ValueError) as e:
+            I.raise_builtin(run, type(e).__name__, node, C(str(e)))
     ka, kb = run.kind_of(a), run.kind_of(b)
     if name == "+":
         # sequences
@@ -600,6 +605,8 @@ def subscript(I, run, base: Value, idx, node) -> Value:
                     I.raise_builtin(run, "IndexError", node, idx)
             return App("index", (base, idx))
         if isinstance(c, HObj):
+            if isinstance(c.fields.get("@mapping"), Ref):
+                return subscript(I, run, c.fields["@mapping"], idx, node)
             return App("index", (base, idx))
     if isinstance(base, Tup):
         if isinstance(idx, C) and isinstance(idx.v, int):
@@ -870,8 +877,27 @@ def _list_method(I, run, recv, c: HList, name, args, kwargs, node) -> Value:
                 return NONE
         I.raise_builtin(run, "ValueError", node)
     if name == "sort":
+        if all(isinstance(x, C) for x in c.items) and "key" not in kwargs:
+            try:
+                rev = kwargs.get("reverse", FALSE)
+                c.items[:] = [C(v) for v in sorted((x.v for x in c.items), reverse=bool(rev.v) if isinstance(rev, C) else False)]
+                return NONE
+            except TypeError:
+                I.raise_builtin(run, "TypeError", node)
+        if len(c.items) <= 1:
+            return NONE
         run.effect("list.sort", (recv,), node=node)
+        c.items[:] = [App("sorted_elem", (Tup(tuple(c.items)), C(i))) for i in range(len(c.items))]
         return NONE
+    if name == "reverse":
+        c.items.reverse()
+        return NONE
+    if name == "count":
+        n = 0
+        for x in c.items:
+            if decide_cmp(I, run, "==", x, args[0], node):
+                n += 1
+        return C(n)
     return App("m:" + name, (recv,) + tuple(args))
 
 
@@ -1475,7 +1501,21 @@ def _b_abs(I, run, args, kwargs, node):
     return App("abs", (v,), run.kind_of(v))
 
 
+def _b_format(I, run, args, kwargs, node):
+    spec = I.resolve(run, args[1]) if len(args) > 1 else C("")
+    v = I.resolve(run, args[0])
+    if isinstance(spec, C) and spec.v == "":
+        return to_str(I, run, v, None, node)
+    if isinstance(v, C) and isinstance(spec, C):
+        try:
+            return C(format(v.v, spec.v))
+        except (ValueError, TypeError) as e:
+            I.raise_builtin(run, type(e).__name__, node)
+    return App("format", (v, spec), "str")
+
+
 BUILTINS = {
+    "format": _b_format,
     "len": _b_len, "isinstance": _b_isinstance, "int": _b_int, "float": _b_float, "str": _b_str, "repr": _b_repr,
     "bool": _b_bool, "callable": _b_callable, "min": _b_minmax("min"), "max": _b_minmax("max"), "range": _b_range,
     "any": _b_any, "all": _b_all, "sum": _b_sum, "map": _b_map, "filter": _b_filter, "sorted": _b_sorted,
